@@ -198,6 +198,14 @@ def opaque_contains(ex, cont, item, node):
         lower = z3.Function('str_lower', z3.StringSort(), z3.StringSort())
         ex.used_assumptions.add('A-CIMOBJ: NocaseDict membership is a function of (dictionary, lower-cased key)')
         return has(cont.t, lower(item.t))
+    if cont.cls:
+        # a repository class with its own __contains__: Python's semantics of `in` (cut at a callee contract of the
+        # function under verification if it has one, else executed from the source)
+        info = ex.find_class(cont.cls)
+        if info is not None:
+            m = info.find_method('__contains__')
+            if m is not None:
+                return tobool(ex.truth(ex.call_function(m, [cont, item], {}, node)))
     ex.limit(f'`in` on opaque {cont}', node)
 
 
